@@ -1,5 +1,148 @@
-//! Harness binary for property C09 (line protocol; see /verif/vlib/BUILDER_GUIDE.md).
+//! Harness binary for property C09 (formatting is idempotent and keeps every comment).
+//! Line protocol, one answer per line:
+//!   layout <width> <doc>        real `prettier::pretty_print` (hook H4)      -> s:<hex>
+//!   expand <doc>                document after running the real builders      -> d:<doc>
+//!   flatten <doc>               real `Document::flatten`                      -> d:<doc> | none
+//!   queue <hextext> <ops>       real parser `peek`(p)/`consume`(c) on the real token producer
+//!                               -> p:<hex>|c:<kind>=<hex>,...;...|pending
+//!   prepend <target> <extra> <group>*   real `mod_associated_comments_with_additional_preceding_comments`
+//!                               -> r:<hexlist> n:<store size>
+//!   fmt <width> <hexsrc>        real parse + `pretty_print_source_module`
+//!                               -> ok <hex formatted> <comments in store> | err <n> <hex first msg> | panic <hex>
+//!   fmtdoc <width> <hexsrc>     real Document of the module (hook H4b) + real output -> ok <hex> <doc>
+//!   tok <hexsrc>                real token producer (hook H6) -> kind:l0:c0:l1:c1:hex,...
+use samlang_errors::ErrorSet;
+use samlang_heap::{Heap, ModuleReference};
+use samverif_harness::util::*;
+use std::panic::{AssertUnwindSafe, catch_unwind};
+
+fn hexlist(v: &[String]) -> String {
+  if v.is_empty() { "-".to_string() } else { v.iter().map(|s| hex(s.as_bytes())).collect::<Vec<_>>().join(",") }
+}
+
+fn unhexlist(s: &str) -> Vec<String> {
+  if s == "-" { Vec::new() } else { s.split(',').map(|x| if x == "e" { String::new() } else { unhex_str(x) }).collect() }
+}
+
+fn fmt(width: usize, src: &str) -> String {
+  let mut heap = Heap::new();
+  let mut error_set = ErrorSet::new();
+  let mr = heap.alloc_module_reference_from_string_vec(vec!["Test".to_string()]);
+  let module = samlang_parser::parse_source_module_from_text(src, mr, &mut heap, &mut error_set);
+  if error_set.has_errors() {
+    let n = error_set.errors().len();
+    let msg = error_set.pretty_print_error_messages_no_frame_for_test(&heap);
+    let first = msg.lines().find(|l| !l.trim().is_empty()).unwrap_or("").to_string();
+    return format!("err {n} {}", hex(first.as_bytes()));
+  }
+  let stored: usize = module
+    .comment_store
+    .all_comments()
+    .iter()
+    .map(|n| n.iter().count())
+    .sum();
+  let out = samlang_printer::pretty_print_source_module(&heap, width, &module);
+  format!("ok {} {stored}", hex(out.as_bytes()))
+}
+
+/// The real Document of a module (hook H4b) followed by the real layout of it at `width`.
+fn fmtdoc(width: usize, src: &str) -> String {
+  let mut heap = Heap::new();
+  let mut error_set = ErrorSet::new();
+  let mr = heap.alloc_module_reference_from_string_vec(vec!["Test".to_string()]);
+  let module = samlang_parser::parse_source_module_from_text(src, mr, &mut heap, &mut error_set);
+  if error_set.has_errors() {
+    return format!("err {}", error_set.errors().len());
+  }
+  let doc = samlang_printer::verif_hooks::module_doc(&heap, &module);
+  let out = samlang_printer::pretty_print_source_module(&heap, width, &module);
+  format!("ok {} {doc}", hex(out.as_bytes()))
+}
+
 fn main() {
-  eprintln!("c09: not implemented yet");
-  std::process::exit(2);
+  std::panic::set_hook(Box::new(|_| {}));
+  for_each_line(|line| {
+    let r = catch_unwind(AssertUnwindSafe(|| -> String {
+      let (op, rest) = line.split_once(' ').unwrap_or((line, ""));
+      match op {
+        "layout" => {
+          let (w, doc) = rest.split_once(' ').unwrap_or((rest, ""));
+          let w: usize = w.parse().unwrap();
+          match samlang_printer::verif_hooks::layout(w, doc) {
+            Ok(s) => format!("s:{}", hex(s.as_bytes())),
+            Err(e) => format!("bad-doc:{e}"),
+          }
+        }
+        "expand" => match samlang_printer::verif_hooks::expand(rest) {
+          Ok(s) => format!("d:{s}"),
+          Err(e) => format!("bad-doc:{e}"),
+        },
+        "flatten" => match samlang_printer::verif_hooks::flatten(rest) {
+          Ok(Some(s)) => format!("d:{s}"),
+          Ok(None) => "none".to_string(),
+          Err(e) => format!("bad-doc:{e}"),
+        },
+        "queue" => {
+          let t: Vec<&str> = rest.split(' ').collect();
+          let text = unhex_str(t[0]);
+          let ops: Vec<bool> = t.get(1).unwrap_or(&"").chars().map(|c| c == 'c').collect();
+          let (answers, pending) = samlang_parser::verif_hooks_queue::queue_trace(&text, &ops);
+          let show = |v: &Vec<(&'static str, String)>| {
+            v.iter().map(|(k, s)| format!("{k}={}", hex(s.as_bytes()))).collect::<Vec<_>>().join(",")
+          };
+          let mut parts: Vec<String> = answers
+            .iter()
+            .map(|a| match a {
+              samlang_parser::verif_hooks_queue::QueueAnswer::Peeked(s) => {
+                format!("p:{}", hex(s.as_bytes()))
+              }
+              samlang_parser::verif_hooks_queue::QueueAnswer::Consumed(v) => format!("c:{}", show(v)),
+            })
+            .collect();
+          parts.push(format!("|{}", show(&pending)));
+          parts.join(";")
+        }
+        "prepend" => {
+          let t: Vec<&str> = rest.split(' ').collect();
+          let target: usize = t[0].parse().unwrap();
+          let extra = unhexlist(t[1]);
+          let groups: Vec<Vec<String>> = t[2..].iter().map(|g| unhexlist(g)).collect();
+          if target >= groups.len() {
+            return "skip".to_string();
+          }
+          let (texts, n) = samlang_parser::verif_hooks_queue::prepend_trace(&groups, target, &extra);
+          format!("r:{} n:{n}", hexlist(&texts))
+        }
+        "fmt" => {
+          let (w, src) = rest.split_once(' ').unwrap();
+          fmt(w.parse().unwrap(), &unhex_str(src))
+        }
+        "fmtdoc" => {
+          let (w, src) = rest.split_once(' ').unwrap();
+          fmtdoc(w.parse().unwrap(), &unhex_str(src))
+        }
+        "tok" => {
+          let src = unhex_str(rest);
+          let mut heap = Heap::new();
+          let mut error_set = ErrorSet::new();
+          let toks = samlang_parser::verif_hooks::produce_tokens(
+            &src,
+            ModuleReference::DUMMY,
+            &mut heap,
+            &mut error_set,
+          );
+          let v: Vec<String> = toks
+            .iter()
+            .map(|(k, s, (a, b, c, d))| format!("{k}:{a}:{b}:{c}:{d}:{}", hex(s.as_bytes())))
+            .collect();
+          if v.is_empty() { "-".to_string() } else { v.join(",") }
+        }
+        _ => "bad-op".to_string(),
+      }
+    }));
+    match r {
+      Ok(s) => s,
+      Err(e) => format!("panic {}", hex(panic_msg(&e).as_bytes())),
+    }
+  });
 }
